@@ -372,7 +372,9 @@ def precond(ins, regs):
             return c.shape[0] == c.shape[1] == a.shape[0]
         if op == 'umax':
             v = np.sort(np.ravel(np.asarray(regs[ins[1]])))
-            return not _is_cplx(v) and v.size >= 1 and (v.size == 1 or bool(v[-1] - v[-2] >= 0.05))
+            # (exact ties of the maximum are a kink; the metamorphic forward checks admit them: the selection must then still be a
+            #  function of the zeroth coefficients, whatever the number of coefficients carried)
+            return not _is_cplx(v) and v.size >= 1 and (v.size == 1 or KINKS_OK[0] or bool(v[-1] - v[-2] >= 0.05))
         if op == 'tri':
             m = np.asarray(regs[ins[2]])
             return m.ndim == 2
@@ -567,6 +569,8 @@ def programs(draw, n_inputs=(1, 2), max_len=8, families=None, out='any', K=4, in
     for i in range(nin):
         if i == 0 and first in FIRST_INPUT:
             f1 = 'pow' if (kinks_ok and first in ('kink', 'abs')) else first     # 'pow' inputs contain exact zeros
+            if kinks_ok and first == 'umax' and draw(st.booleans()):
+                f1 = 'umaxtie'
             pts.append(draw(_special_input(f1, K, max_side)))
             continue
         rank = draw(st.sampled_from(list(in_rank)))
@@ -607,7 +611,7 @@ FIRST_INPUT = {'inv': 'regular', 'det': 'regular', 'logdet': 'posdet', 'solve': 
                'chol': 'square', 'eigh': 'gapsym', 'svd': 'svd', 'trace': 'matrix', 'T': 'matrix', 'diag': 'vecorsquare',
                'symvec': 'square', 'outer': 'vector', 'dot': 'vecormat', 'dotc': 'vecormat', 'prod': 'vector', 'tile': 'vecormat',
                'sum': 'vecormat', 'reshape': 'vecormat', 'get': 'vecormat', 'fft': 'vecormat', 'tri': 'matrix',
-               'expm': 'square', 'svdfull': 'svd', 'minmax': 'vecormat', 'umax': 'vector', 'kink': 'awayzero', 'abs': 'awayzero', 'pow': 'withzeros', 'special': 'unitinterval', 'unp': 'unitinterval', 'unfwd': 'unitinterval', 'dotnd': 'cube', 'eig': 'realeig', 'powreg': 'unitinterval', 'solvec': 'regular', 'iop': 'vecormat', 'rpowc': 'vecormat', 'eighraw': 'square', 'vec2lin': 'vecgapsym'}
+               'expm': 'square', 'svdfull': 'svd', 'minmax': 'vecormat', 'umax': 'vector', 'kink': 'awayzero', 'abs': 'awayzero', 'pow': 'withzeros', 'special': 'unitinterval', 'unp': 'unitinterval', 'unfwd': 'unitinterval', 'dotnd': 'cube', 'eig': 'realeig', 'powreg': 'unitinterval', 'solvec': 'regular', 'iop': 'vecormat', 'rpowc': 'vecormat', 'eighraw': 'square', 'vec2lin': 'vecgapsym', 'umaxtie': 'tievector'}
 
 
 @st.composite
@@ -676,6 +680,10 @@ def _special_input(draw, first, K, max_side):
         return draw(gen.float_array((K,) + shape, elems, sparse=False))
     if kind == 'vector':
         return draw(gen.float_array((K, n), elems, sparse=False))
+    if kind == 'tievector':
+        # few distinct values: the maximum is attained by several entries at most probe points
+        n = draw(st.integers(2, 4))
+        return draw(gen.float_array((K, n), st.sampled_from([1.0, 1.0, 0.5, -1.0, 1.0, 2.0]), sparse=False))
     if kind == 'vecorsquare':
         shape = draw(st.sampled_from([(n,), (n, n)]))
         return draw(gen.float_array((K,) + shape, elems, sparse=False))
